@@ -29,6 +29,32 @@ def check_process(run, cx, cfg):
     if body is None:
         run.fail('graph.process', fn, cfg, 'function not found')
         return
+    bad, kinds = step_rule(cx, fn)
+    run.check(bad is None, 'graph.process', fn, cfg, bad or '', where=where(body), sample=sorted(kinds))
+    # Processor::process: the same step function (it forwards to process(), or process() forwards to it: both are seen
+    # with the other inlined, and both take (processor, graph, node) in this order)
+    fn = PROC + '::<G>::process'
+    body = cx.body(fn)
+    if body is not None:
+        ps = returning(cx.paths(fn, stop=['dasp_graph::process']))
+        ok = len(ps) == 1 and len(call_events(ps[0])) == 1 and rp(call_events(ps[0])[0][1]) == 'dasp_graph::process' \
+            and [unre(a) for a in call_events(ps[0])[0][1]['args']] == [('param', 1), ('param', 2), ('param', 3)]
+        why = 'Processor::process must forward (self, graph, node) to process()'
+        if not ok:
+            bad2, kinds2 = step_rule(cx, fn)
+            ok = bad2 is None
+            why += ', or be that step function itself: ' + (bad2 or '')
+        run.check(ok, 'graph.processor-forwards', fn, cfg, why, where=where(body))
+    # who may call Input::new: process() / Processor::process(), possibly through private helpers that only they reach
+    callers, offenders = callers_confined(cx.facts, 'dasp_graph::node::Input::new', {'dasp_graph::process', PROC + '::<G>::process'})
+    info = cx.facts.fns.get('dasp_graph::node::Input::new', {})
+    run.check(not offenders and info.get('pub') is False, 'graph.input-who-may-call', 'dasp_graph::node::Input::new', cfg,
+              'Input (a raw pointer + length) may only be built by process() (or its private helpers), from buffers that outlive the call: reachable from %s, pub=%s' % (sorted(offenders), info.get('pub')))
+    run.check(len(callers) >= 1, 'graph.input-who-may-call', 'dasp_graph::node::Input::new', cfg + ':positive-control', 'matcher found no caller at all')
+
+
+def step_rule(cx, fn):
+    """(what is wrong | None, kinds of step seen) for the traversal loop of `fn(processor, graph, node)`"""
     di, ii = cx.field_index(PROC, 'dfs_post_order'), cx.field_index(PROC, 'inputs')
     dfs = ('ref', self_loc(di))
     inputs = ('ref', self_loc(ii))
@@ -174,21 +200,7 @@ def check_process(run, cx, cfg):
             break
     if not bad and kinds != {'done', 'skip-self', 'push', 'process'}:
         bad = 'step function lacks cases (has %s)' % sorted(kinds)
-    run.check(bad is None, 'graph.process', fn, cfg, bad or '', where=where(body), sample=sorted(kinds))
-    # Processor::process forwards
-    fn = PROC + '::<G>::process'
-    body = cx.body(fn)
-    if body is not None:
-        ps = returning(cx.paths(fn, stop=['dasp_graph::process']))
-        ok = len(ps) == 1 and len(call_events(ps[0])) == 1 and rp(call_events(ps[0])[0][1]) == 'dasp_graph::process' \
-            and [unre(a) for a in call_events(ps[0])[0][1]['args']] == [('param', 1), ('param', 2), ('param', 3)]
-        run.check(ok, 'graph.processor-forwards', fn, cfg, 'Processor::process must forward (self, graph, node) to process()', where=where(body))
-    # who may call Input::new: process(), possibly through private helpers that only process() reaches
-    callers, offenders = callers_confined(cx.facts, 'dasp_graph::node::Input::new', {'dasp_graph::process'})
-    info = cx.facts.fns.get('dasp_graph::node::Input::new', {})
-    run.check(not offenders and info.get('pub') is False, 'graph.input-who-may-call', 'dasp_graph::node::Input::new', cfg,
-              'Input (a raw pointer + length) may only be built by process() (or its private helpers), from buffers that outlive the call: reachable from %s, pub=%s' % (sorted(offenders), info.get('pub')))
-    run.check(len(callers) >= 1, 'graph.input-who-may-call', 'dasp_graph::node::Input::new', cfg + ':positive-control', 'matcher found no caller at all')
+    return bad, kinds
 
 
 def unre(t):
@@ -273,7 +285,15 @@ def check_sources_sinks(run, cx, cfg):
                     if not (dirn[0] == 'agg' and dirn[1][3] == direction):
                         bad_dir = '%s() must look for neighbours in direction %s (uses %s)' % (name, direction, dirn[1][3] if dirn[0] == 'agg' else short(dirn))
                         break
-                    has = dict(cond_facts(cp)).get(('discr', ('ret', nx[0][0])))
+                    cf = dict(cond_facts(cp))
+                    D = ('discr', ('ret', nx[0][0]))
+                    has = cf.get(D)
+                    if has is None:
+                        # the test spelled as a boolean first (`let none = it.next().is_none(); none.then(|| id)`)
+                        for t_, when_true, when_false in ((('op', 'Eq', D, ('int', 0, 'isize')), 0, 1), (('op', 'Ne', D, ('int', 1, 'isize')), 0, 1),
+                                                          (('op', 'Eq', D, ('int', 1, 'isize')), 1, 0), (('op', 'Ne', D, ('int', 0, 'isize')), 1, 0)):
+                            if cf.get(t_) in (('bool', True), ('bool', False)):
+                                has = ('int', when_true if cf[t_][1] else when_false, 'isize')
                     r = cp['ret']
                     if has is None and r in (('op', 'Eq', ('discr', ('ret', nx[0][0])), ('int', 0, 'isize')), ('op', 'Ne', ('discr', ('ret', nx[0][0])), ('int', 1, 'isize'))):
                         # `.next().is_none()` as the filter predicate: kept exactly when there is no such neighbour
